@@ -27,10 +27,11 @@ const (
 	WOpGrow
 	WOpWriteEmpty
 	WOpReattach // SetExtensions called again with the same message state (only generated for C13)
+	WOpSetExt   // SetExtensions called with another chain (N: bits 0-1 RSV2 extension placement, bit 2 RSV3 extension, bit 3 keep the message state); only generated when WCfg.SwapExt
 	numWOps
 )
 
-var wopNames = [...]string{"Write", "ReadFrom", "Copy", "WriteThrough", "FlushFragment", "Flush", "Grow", "Write0", "SetExtensions"}
+var wopNames = [...]string{"Write", "ReadFrom", "Copy", "WriteThrough", "FlushFragment", "Flush", "Grow", "Write0", "SetExtensions", "SetExtensions*"}
 
 // WOp is one step of a writer history.
 type WOp struct {
@@ -44,7 +45,7 @@ type WOp struct {
 func (o WOp) String() string {
 	s := wopNames[o.Kind]
 	switch o.Kind {
-	case WOpWrite, WOpThrough, WOpGrow:
+	case WOpWrite, WOpThrough, WOpGrow, WOpSetExt:
 		s += fmt.Sprintf("(%d)", o.N)
 	case WOpReadFrom, WOpCopy:
 		s += fmt.Sprintf("(%d in %d reads, srcErr=%v, endWithData=%v)", o.N, len(o.Chunks), o.SrcErr, o.SrcEnd)
@@ -63,6 +64,9 @@ type WCfg struct {
 	PlainOnly bool
 	Ext2      int      // a second extension that sets RSV2 on every frame: 0 none, 1 attached after the message state, 2 before it
 	Extra     ws.State // further state bits the application carries in the same value (StateExtended, StateFragmented)
+	Ext3      bool     // a further extension that sets RSV3 on every frame (last in the chain)
+	SwapExt   bool     // the history may replace the extension chain (WOpSetExt)
+	NoSide    bool     // !Client only: the state value carries neither side bit (not client-side: frames are not masked)
 }
 
 var ctorNames = [...]string{"NewWriter", "NewWriterSize", "NewWriterBufferSize", "NewWriterBuffer", "GetWriter"}
@@ -71,11 +75,14 @@ func (c WCfg) State() ws.State {
 	if c.Client {
 		return ws.StateClientSide | c.Extra
 	}
+	if c.NoSide {
+		return c.Extra
+	}
 	return ws.StateServerSide | c.Extra
 }
 
 func (c WCfg) String() string {
-	return fmt.Sprintf("%s(size=%d client=%v state+=%#x op=%d noFlush=%v ext=%d ext2=%d)", ctorNames[c.Ctor], c.Size, c.Client, uint8(c.Extra), c.Op, c.NoFlush, c.Ext, c.Ext2)
+	return fmt.Sprintf("%s(size=%d state=%#x op=%d noFlush=%v ext=%d ext2=%d ext3=%v)", ctorNames[c.Ctor], c.Size, uint8(c.State()), c.Op, c.NoFlush, c.Ext, c.Ext2, c.Ext3)
 }
 
 // headerRoom is the RFC header length for a payload of n bytes.
@@ -220,7 +227,12 @@ func drawHistory(r *eng.Run, cfg WCfg, maxOps int) []WOp {
 		} else {
 			op.Kind = []int{WOpWrite, WOpWrite, WOpWrite, WOpReadFrom, WOpCopy, WOpThrough, WOpFlushFrag, WOpFlush, WOpFlush, WOpGrow, WOpWriteEmpty}[r.T.Int(sim.LHist, 11)]
 		}
+		if cfg.SwapExt && r.T.Chance(sim.LHist, 1, 6) {
+			op.Kind = WOpSetExt
+		}
 		switch op.Kind {
+		case WOpSetExt:
+			op.N = r.T.Int(sim.LCfg, 16)
 		case WOpWrite, WOpThrough:
 			op.N = drawN()
 		case WOpGrow:
@@ -287,7 +299,12 @@ func NewW(cfg WCfg, dest io.Writer) *wsutil.Writer {
 	case 2:
 		return wsutil.NewWriterBufferSize(dest, st, op, cfg.Size)
 	case 3:
-		return wsutil.NewWriterBuffer(dest, st, op, make([]byte, cfg.Size))
+		// The caller's buffer holds whatever it held before.
+		buf := make([]byte, cfg.Size)
+		for i := range buf {
+			buf[i] = 0xEE
+		}
+		return wsutil.NewWriterBuffer(dest, st, op, buf)
 	default:
 		return wsutil.GetWriter(dest, st, op, cfg.Size)
 	}
@@ -334,6 +351,14 @@ func (rsv2Ext) SetBits(h ws.Header) (ws.Header, error) {
 	return h, nil
 }
 
+// rsv3Ext marks every frame with RSV3.
+type rsv3Ext struct{}
+
+func (rsv3Ext) SetBits(h ws.Header) (ws.Header, error) {
+	h.Rsv |= 1
+	return h, nil
+}
+
 // extensions is the chain the configuration attaches (ms may be nil).
 func (c WCfg) extensions(ms *wsflate.MessageState) []wsutil.SendExtension {
 	var xs []wsutil.SendExtension
@@ -345,6 +370,9 @@ func (c WCfg) extensions(ms *wsflate.MessageState) []wsutil.SendExtension {
 	}
 	if c.Ext2 == 1 {
 		xs = append(xs, rsv2Ext{})
+	}
+	if c.Ext3 {
+		xs = append(xs, rsv3Ext{})
 	}
 	return xs
 }
@@ -402,6 +430,18 @@ func ExecHistory(r *eng.Run, wr *WRun, seed uint32, check func(step int)) {
 			if wr.MS != nil {
 				w.SetExtensions(wr.Cfg.extensions(wr.MS)...)
 			}
+		case WOpSetExt:
+			// The application replaces the chain: from now on exactly the new
+			// extensions apply (an empty call removes them all).
+			c := wr.Cfg
+			c.Ext2, c.Ext3 = []int{0, 1, 2, 0}[op.N&3], op.N&4 != 0
+			if op.N&8 == 0 {
+				c.Ext, wr.MS = 0, nil
+			}
+			wr.Cfg = c
+			xs := c.extensions(wr.MS)
+			w.SetExtensions(xs...)
+			lastExts, lastExtsCopy = xs, append([]wsutil.SendExtension(nil), xs...)
 		case WOpGrow:
 			w.Grow(op.N)
 			if w.Available() < op.N {
@@ -574,6 +614,8 @@ func C06(r *eng.Run) {
 	if cfg.NoFlush && r.T.Bool(sim.LCfg) {
 		cfg.PlainOnly = true
 	}
+	cfg.SwapExt = !cfg.PlainOnly && r.T.Chance(sim.LCfg, 1, 4)
+	cfg.NoSide = !cfg.Client && r.T.Chance(sim.LCfg, 1, 8)
 	r.SetEntry("Writer/" + ctorNames[cfg.Ctor])
 	ops := drawHistory(r, cfg, 12)
 	seed := r.T.U32(sim.LPaySeed)
@@ -583,6 +625,11 @@ func C06(r *eng.Run) {
 	wr.MS = applyOptions(wr.W, cfg)
 	wr.Size0 = wr.W.Size()
 	r.Note("C06 %s Size()=%d history: %v", cfg, wr.Size0, ops)
+	if cfg.Ctor == 1 && cfg.Size > 0 && wr.Size0 < cfg.Size {
+		// "output frames payload length could be up to n": a message of n
+		// bytes fits the sized writer and leaves as one frame.
+		r.Failf("sized_writer_too_small", "NewWriterSize(%d) on %s: Size()=%d, a message of %d bytes would not leave as a single frame", cfg.Size, cfg, wr.Size0, cfg.Size)
+	}
 	r.Res.Nontrivial = len(ops) > 1
 	tr := &msgTrack{onlyWrites: true, buffered: true, startSize: wr.Size0}
 	ExecHistory(r, wr, seed, func(i int) { c06Step(r, wr, tr, i) })
@@ -596,6 +643,7 @@ func C06(r *eng.Run) {
 		wsutil.PutWriter(wr.W)
 		cfg2 := cfg
 		cfg2.Client, cfg2.NoFlush, cfg2.Ext, cfg2.Ext2 = r.T.Bool(sim.LSide), false, 0, 0
+		cfg2.Ext3, cfg2.SwapExt, cfg2.NoSide = false, false, false
 		if cfg2.Size < 7 {
 			cfg2.Size = 7 // smaller buffers cannot hold a client header (documented panic)
 		}
@@ -683,6 +731,9 @@ func c06Step(r *eng.Run, wr *WRun, tr *msgTrack, i int) {
 		}
 		if cfg.Ext2 > 0 {
 			wantRsv |= 2 // every extension of the chain contributes its bits
+		}
+		if cfg.Ext3 {
+			wantRsv |= 1
 		}
 		if f.Rsv != wantRsv {
 			r.FailProp(rsvProp(cfg), "wrong_rsv", "after step %d %s: frame %d of the message has rsv=%d, expected %d (ext=%d)", i, op, tr.frames, f.Rsv, wantRsv, cfg.Ext)
@@ -793,6 +844,13 @@ func c06WriteMessage(r *eng.Run) {
 		st := ws.StateServerSide
 		if client {
 			st = ws.StateClientSide
+		}
+		// Further bits of the state value make no difference; a value with
+		// neither side bit is not client-side.
+		st |= []ws.State{0, 0, ws.StateExtended, ws.StateFragmented, ws.StateExtended | ws.StateFragmented}[r.T.Int(sim.LCfg, 5)]
+		if !client && r.T.Chance(sim.LCfg, 1, 4) {
+			st = st.Clear(ws.StateServerSide)
+			r.Probe("write_message_state_without_side")
 		}
 		err = wsutil.WriteMessage(p, st, ws.OpCode(op), data)
 	case variant == 1 && client:
